@@ -37,6 +37,7 @@ import (
 )
 
 var c09child = flag.Bool("c09child", false, "internal: a fresh-process compilation pass of `harness c09`")
+var c09order = flag.Int("c09order", 0, "internal: order in which a fresh process compiles the cases (0 as generated, 1 reversed, 2 shuffled)")
 
 func init() { commands["c09"] = runC09 }
 
@@ -235,7 +236,7 @@ type c09Case struct {
 	Opt string
 }
 
-var c09OptSets = []string{"untyped", "untyped+opt", "typed", "typed+opt", "typed+opt+int64", "typed+opt+bool", "mapenv+opt", "mapenv+undef", "typed+ops+constexpr"}
+var c09OptSets = []string{"untyped", "untyped+opt", "typed", "typed+opt", "typed+opt+int64", "typed+opt+bool", "mapenv+opt", "mapenv+undef", "typed+ops+constexpr", "typed-value", "typed-value+undef"}
 
 func c09Options(name string, sample *Env, menv map[string]interface{}) []expr.Option {
 	switch name {
@@ -251,6 +252,10 @@ func c09Options(name string, sample *Env, menv map[string]interface{}) []expr.Op
 		return []expr.Option{expr.Env(sample), expr.AsInt64()}
 	case "typed+opt+bool":
 		return []expr.Option{expr.Env(sample), expr.AsBool()}
+	case "typed-value": // the struct VALUE as sample environment (pointer-receiver methods are not members)
+		return []expr.Option{expr.Env(*sample)}
+	case "typed-value+undef":
+		return []expr.Option{expr.Env(*sample), expr.AllowUndefinedVariables()}
 	case "mapenv+opt":
 		return []expr.Option{expr.Env(menv)}
 	case "mapenv+undef":
@@ -316,7 +321,7 @@ func c09Cases(rng *rand.Rand) []c09Case {
 	for i, s := range srcs {
 		for j, o := range c09OptSets {
 			// every source in the four basic modes; the other option sets on a rotating third
-			if j < 4 || (i+j)%3 == 0 {
+			if j < 4 || (i+j)%3 == 0 || strings.Contains(s, "PtrM") || strings.Contains(s, "Twice") || strings.Contains(s, "Get()") {
 				cases = append(cases, c09Case{s, o})
 			}
 		}
@@ -338,7 +343,22 @@ func c09Child() {
 	sample := baseEnv()
 	menv := c09MapEnv(baseEnv())
 	ds := make([]string, len(cases))
-	for i, c := range cases {
+	// the order of compilation must not matter (no state may survive a Compile call): each fresh process
+	// uses another order than the parent
+	order := make([]int, len(cases))
+	for i := range order {
+		order[i] = i
+	}
+	switch *c09order {
+	case 1:
+		for i := range order {
+			order[i] = len(cases) - 1 - i
+		}
+	case 2:
+		rand.New(rand.NewSource(*seed+77)).Shuffle(len(order), func(i, j int) { order[i], order[j] = order[j], order[i] })
+	}
+	for _, i := range order {
+		c := cases[i]
 		p, err := expr.Compile(c.Src, c09Options(c.Opt, sample, menv)...)
 		ds[i] = c09Digest(p, err)
 	}
@@ -395,7 +415,7 @@ func runC09() {
 		dir := filepath.Join(*outDir, fmt.Sprintf("child%d", k))
 		os.MkdirAll(dir, 0755)
 		os.Remove(filepath.Join(dir, "digests.json"))
-		cmd := exec.Command(exe, "c09", "-c09child", "-out", dir, "-seed", fmt.Sprint(*seed), "-tier", *tier)
+		cmd := exec.Command(exe, "c09", "-c09child", "-c09order", fmt.Sprint(k+1), "-out", dir, "-seed", fmt.Sprint(*seed), "-tier", *tier)
 		cmd.Stdout, cmd.Stderr = os.Stderr, os.Stderr
 		if err := cmd.Start(); err == nil {
 			children = append(children, childRun{cmd, dir})
@@ -626,6 +646,6 @@ func runC09() {
 	for i := 0; i < 6 && i < len(cases); i++ {
 		rep.Samples = append(rep.Samples, cases[(i*7919+13)%len(cases)])
 	}
-	rep.Rule = "cases = (fixed sources covering every constant kind and every allocating opcode + a shuffled sample (quick) / all (thorough) of the exhaustive shape family + type-directed random expressions) x option sets {untyped, untyped+opt, typed, typed+opt on every source; AsInt64, AsBool, map environment, map environment + AllowUndefinedVariables, operator overloading + ConstExpr on a rotating third}; each compiled 5x in-process and once in each of 2 fresh processes (digest of Bytecode+Constants+Locations or the error text); every distinct program run on 5 (quick) / 8 (thorough) environments with deep structure (one with unsorted slices that have spare capacity, multi-entry maps, shared pointers), twice on the same value and once on an equal twin, with deep snapshots of environment, sample environment and program around every run; distinct_nontrivial = successfully compiled (source, option set) pairs + distinct (program, environment) pairs run"
+	rep.Rule = "cases = (fixed sources covering every constant kind and every allocating opcode + a shuffled sample (quick) / all (thorough) of the exhaustive shape family + type-directed random expressions) x option sets {untyped, untyped+opt, typed, typed+opt on every source; AsInt64, AsBool, map environment, map environment + AllowUndefinedVariables, operator overloading + ConstExpr, the struct VALUE as sample environment with and without AllowUndefinedVariables on a rotating third and on every source that calls a method}; each compiled 5x in-process and once in each of 2 fresh processes that compile the cases in REVERSED and in SHUFFLED order (digest of Bytecode+Constants+Locations or the error text); every distinct program run on 5 (quick) / 8 (thorough) environments with deep structure (one with unsorted slices that have spare capacity, multi-entry maps, shared pointers), twice on the same value and once on an equal twin, with deep snapshots of environment, sample environment and program around every run; distinct_nontrivial = successfully compiled (source, option set) pairs + distinct (program, environment) pairs run"
 	rep.write()
 }
